@@ -35,6 +35,8 @@ EXTRA = [
     "$['and']", "$..['or']", "$[?@['true'] == true]", "$[?@.a == undefined]", "$[?@.a == nil]", "a", "[0]", "$[a]", "$.[a]", "$[?@.a <> 1]", "$[?@.a contains 'x']",
     "$[?typeof(@.a) == 'number']", "$[?type(@.s) == 'string']", "$[?is(@.a, 'array')]", "$[?isinstance(@, 'object') && !is(@.a, 'null')]", "$[?typeof(@.nope) == 'undefined']",
     "$[?not @.a and not (@.b or @.c)]", "$[?!@.a == false]", "$[?(!@.a) == false]", "$[?@.a == !@.b]",
+    # regex literals whose pattern text looks like it sets a flag
+    "$[?@.s =~ /(?i:ab)c/i]", "$[?@.s =~ /\\(?item/i]", "$[?@.s =~ /(?s:a.b)x/s]", "$[?@.s =~ /(?i)ab/i]", "$[?@.s =~ /(?:a)b/m]", "$[?@.s =~ /(?i:A)b/]",
 ]
 
 
